@@ -18,6 +18,7 @@ else:
     from typing import Match  # pragma:  no cover
 
 HOST_ATTRS = (
+    "hostname",
     "port",
     "user",
     "address_family",
